@@ -1,5 +1,6 @@
 import RsslVerif.Lemmas.MacroScope
 import RsslVerif.Lemmas.Include
+import RsslVerif.Lemmas.MacroSubst
 /-!
 # C12 — macro expansion and inclusion equal reference textual substitution
 
@@ -9,7 +10,7 @@ by the correspondence run on generated macro programs.
 -/
 namespace RsslVerif.Thm.C12
 open RsslVerif.Gen.MacroTables RsslVerif.Model.Macro RsslVerif.Model.Include RsslVerif.Spec.CPre
-open RsslVerif.Lemmas.MacroScope RsslVerif.Lemmas.Include
+open RsslVerif.Lemmas.MacroScope RsslVerif.Lemmas.Include RsslVerif.Lemmas.MacroTerm RsslVerif.Lemmas.MacroSubst
 
 /-- Tie to the source: the shapes of `preprocess_command`, `apply_single_macro`, `preprocess_initial_file`,
 `Token::is_whitespace` and `compile()` the model was written against. -/
@@ -22,6 +23,190 @@ theorem source_shape :
     userDefinesAppended = true := by
   refine ⟨by decide, by decide, by decide, by decide, by decide, by decide, by decide, ?_, by decide⟩
   intro t; cases t <;> decide
+
+/-! ## Termination -/
+
+/-- **expand_terminates.** `applyLoop` -- the `while` loop of `apply_macros_internal` together with the recursive
+expansion of every argument (with the current disabled flags, as in the fixed code) and of every substituted body
+(with the invoked macro disabled) -- is a total function: Lean accepts it by well-founded recursion on the
+lexicographic measure (number of enabled macros, number of tokens right of `next_pos`)
+(`termination_by` in `Model/Macro.lean`).  The three inequalities the measure needs are tested at run time in the
+model; this theorem shows that none of the tests can fail, for any macro list (self- and mutually referential ones
+included), token list and search position, at any depth of the recursion. -/
+theorem expand_terminates (env : List Entry) (toks : List PTok) (sp : SearchPos) :
+    ∃ r, applyLoop env toks sp = r ∧ ∀ w, r ≠ .error (.guard w) :=
+  ⟨_, rfl, fun w => applyLoop_no_guard env toks sp w⟩
+
+/-- non-vacuity: the macro table that overflowed the stack before the d00f5aa fix, `#define A B(A)`,
+`#define B(x) x`, on the text `A` (the run itself is in corpus/C12.txt, line 1) -/
+example : ∃ r, applyMacros [⟨"A", false, 0, [⟨.id "B", true⟩, ⟨.lparen, true⟩, ⟨.id "A", true⟩, ⟨.rparen, true⟩]⟩,
+    ⟨"B", true, 1, [⟨.arg 0, true⟩]⟩] [⟨.id "A", true⟩] = r ∧ ∀ w, r ≠ .error (.guard w) :=
+  expand_terminates _ _ _
+
+/-! ## Substitution -/
+
+/-- **object_like_is_substitution.** Invoking an object-like macro yields its body: in a text whose other tokens
+start no macro operation, the name is replaced by the replacement list, nothing else changes.  (`pre`, `post`: the
+other entries of the macro list, any number, in any state; the entry is the first of its name.  The body and the
+surrounding text are `Inert`: they contain no macro name and no `##`; bodies that invoke further macros are covered by
+`expand_refines_spec_partial` below only through the one-step lemma.) -/
+theorem object_like_is_substitution (pre post : List Entry) (m : Macro) (before after : List PTok) (b : Bool)
+    (hpre : ∀ e ∈ pre, e.m.name ≠ m.name) (hobj : m.isFunction = false)
+    (hnoarg : ∀ t ∈ m.body, ∀ i, t.tok ≠ .arg i)
+    (hbody : Inert (pre ++ ⟨m, false⟩ :: post) m.body)
+    (hbefore : Inert (pre ++ ⟨m, false⟩ :: post) before)
+    (hafter : Inert (pre ++ ⟨m, false⟩ :: post) after) :
+    applyLoop (pre ++ ⟨m, false⟩ :: post) (before ++ ⟨.id m.name, b⟩ :: after) SearchPos.start =
+      .ok (before ++ m.body ++ after) := by
+  have htoks : before ++ ⟨.id m.name, b⟩ :: after = before ++ [⟨.id m.name, b⟩] ++ after := by simp
+  have hf : findSingle (before ++ ⟨.id m.name, b⟩ :: after) SearchPos.start (pre ++ ⟨m, false⟩ :: post) =
+      .ok (.user pre.length before.length) := by
+    have hm := matchMacro_object (before ++ ⟨.id m.name, b⟩ :: after) before.length SearchPos.start 0 pre post m
+      hpre hobj (Nat.zero_le _)
+    rw [Nat.zero_add] at hm
+    exact findSingle_at _ before after _ m.name b pre.length rfl hbefore hm
+  have hmi : (pre ++ (⟨m, false⟩ : Entry) :: post)[pre.length]? = some ⟨m, false⟩ := by simp
+  have hra : readArgs m ((before ++ ⟨.id m.name, b⟩ :: after).drop (before.length + 1)) = .ok (after, []) := by
+    have : (before ++ ⟨.id m.name, b⟩ :: after).drop (before.length + 1) = after := by
+      rw [htoks, ← List.length_singleton (a := (⟨.id m.name, b⟩ : PTok)), ← List.length_append, List.drop_left]
+    simp [readArgs, hobj, this]
+  have hstep := applyLoop_user_step (pre ++ ⟨m, false⟩ :: post) (before ++ ⟨.id m.name, b⟩ :: after)
+    SearchPos.start pre.length before.length ⟨m, false⟩ after [] [] m.body m.body
+    (by simp only [SearchPos.start, List.length_append, List.length_cons]; omega) hf hmi hra rfl (substitute_noargs _ _ hnoarg)
+    (applyLoop_inert _ _ _ (Nat.le_refl _) (by simpa [SearchPos.start] using inert_disable _ hbody))
+  rw [hstep, htoks, splice_middle]
+  apply applyLoop_inert
+  · simp
+  · simp only [List.append_assoc, List.drop_left]
+    exact inert_append hbody hafter
+
+/-- non-vacuity: `#define N 4 + P`, text `Q N ;` -/
+example : applyLoop [⟨⟨"N", false, 0, [⟨.int "4", true⟩, ⟨.punct "+", true⟩, ⟨.id "P", true⟩]⟩, false⟩]
+    ([⟨.id "Q", true⟩, ⟨.ws, true⟩] ++ ⟨.id "N", true⟩ :: [⟨.punct ";", true⟩]) SearchPos.start =
+    .ok ([⟨.id "Q", true⟩, ⟨.ws, true⟩] ++ [⟨.int "4", true⟩, ⟨.punct "+", true⟩, ⟨.id "P", true⟩] ++
+      [⟨.punct ";", true⟩]) := by
+  apply object_like_is_substitution [] [] ⟨"N", false, 0, _⟩ _ _ true
+  case hpre => intro e he; cases he
+  case hobj => rfl
+  case hnoarg => intro t ht i; simp at ht; rcases ht with rfl | rfl | rfl <;> simp
+  case hbody => intro t ht; simp at ht; rcases ht with rfl | rfl | rfl <;> simp [InertTok]
+  case hbefore => intro t ht; simp at ht; rcases ht with rfl | rfl <;> simp [InertTok]
+  case hafter => intro t ht; simp at ht; subst ht; simp [InertTok]
+
+/-- **function_like_is_substitution** (no self reference). Invoking a function-like macro with `n ≥ 1` parameters on
+arguments `a₁ , … , aₙ` -- each with balanced parentheses and commas only inside them (`IsArg`), possibly preceded by
+blanks before the `(` -- yields its body with every parameter replaced by the corresponding argument, trimmed of
+surrounding blanks: nested parentheses and commas inside them do not split arguments. -/
+theorem function_like_is_substitution (pre post : List Entry) (m : Macro) (before blanks after : List PTok)
+    (as : List (List PTok)) (b b2 b3 : Bool)
+    (hpre : ∀ e ∈ pre, e.m.name ≠ m.name) (hfn : m.isFunction = true)
+    (hne : as ≠ []) (harity : m.numParams = as.length)
+    (hblanks : ∀ t ∈ blanks, t.tok = .ws)
+    (hargs : ∀ a ∈ as, IsArg a ∧ Inert (pre ++ ⟨m, false⟩ :: post) a)
+    (hbody : ∀ t ∈ m.body, (∃ i, t.tok = .arg i ∧ i < m.numParams) ∨
+      ((∀ i, t.tok ≠ .arg i) ∧ InertTok (pre ++ ⟨m, false⟩ :: post) t))
+    (hbefore : Inert (pre ++ ⟨m, false⟩ :: post) before)
+    (hafter : Inert (pre ++ ⟨m, false⟩ :: post) after) :
+    ∃ out, substitute m.body (as.map trim) = .ok out ∧
+      applyLoop (pre ++ ⟨m, false⟩ :: post)
+        (before ++ ⟨.id m.name, b⟩ :: (blanks ++ ⟨.lparen, b2⟩ :: (joinArgs as ++ ⟨.rparen, b3⟩ :: after)))
+        SearchPos.start = .ok (before ++ out ++ after) := by
+  -- the substitution is defined: every parameter index is in range
+  obtain ⟨out, hout⟩ := substitute_ok m.body (as.map trim) (by
+    intro t ht i hi
+    rcases hbody t ht with ⟨j, hj, hlt⟩ | ⟨hno, _⟩
+    · rw [hi] at hj; cases hj; simpa [harity] using hlt
+    · exact absurd hi (hno i))
+  refine ⟨out, hout, ?_⟩
+  let env := pre ++ (⟨m, false⟩ : Entry) :: post
+  let call := ⟨.id m.name, b⟩ :: (blanks ++ ⟨.lparen, b2⟩ :: (joinArgs as ++ [⟨.rparen, b3⟩]))
+  have htoks : before ++ ⟨.id m.name, b⟩ :: (blanks ++ ⟨.lparen, b2⟩ :: (joinArgs as ++ ⟨.rparen, b3⟩ :: after)) =
+      before ++ call ++ after := by simp [call]
+  have hdrop : (before ++ call ++ after).drop (before.length + 1) =
+      blanks ++ ⟨.lparen, b2⟩ :: (joinArgs as ++ ⟨.rparen, b3⟩ :: after) := by
+    simp [call, List.append_assoc]
+  have htrim : trimStart ((before ++ call ++ after).drop (before.length + 1)) =
+      ⟨.lparen, b2⟩ :: (joinArgs as ++ ⟨.rparen, b3⟩ :: after) := by
+    rw [hdrop]; exact trimStart_blanks _ _ hblanks _ rfl
+  have hargsInert : ∀ a ∈ as.map trim, Inert env a := by
+    intro a ha
+    obtain ⟨x, hx, rfl⟩ := List.mem_map.mp ha
+    exact inert_trim (hargs x hx).2
+  have hf : findSingle (before ++ call ++ after) SearchPos.start env = .ok (.user pre.length before.length) := by
+    have hpa : parenAfter (before ++ call ++ after) before.length =
+        some ((before ++ call ++ after).length - ((joinArgs as ++ ⟨.rparen, b3⟩ :: after).length + 1)) := by
+      unfold parenAfter; rw [htrim]
+    have hm := matchMacro_function (before ++ call ++ after) before.length SearchPos.start 0 pre post m hpre hfn rfl _
+      hpa (Nat.zero_le _)
+    rw [Nat.zero_add] at hm
+    exact findSingle_at (before ++ call ++ after) before
+      (blanks ++ ⟨.lparen, b2⟩ :: (joinArgs as ++ ⟨.rparen, b3⟩ :: after)) env m.name b pre.length
+      (by simp [call]) hbefore hm
+  have hmi : env[pre.length]? = some ⟨m, false⟩ := by simp [env]
+  have hra : readArgs m ((before ++ call ++ after).drop (before.length + 1)) = .ok (after, as.map trim) := by
+    have hs : splitArgs m.name ((before ++ call ++ after).drop (before.length + 1)) = .ok (after, as.map trim) := by
+      unfold splitArgs
+      rw [htrim]
+      have := scanArgs_join as hne (fun a ha => (hargs a ha).1) b3 after []
+      simpa using this
+    have hn0 : m.numParams ≠ 0 := by
+      rw [harity]; cases as with
+      | nil => exact absurd rfl hne
+      | cons _ _ => simp
+    unfold readArgs
+    simp only [hfn, if_true, hs, hn0, if_false]
+    simp [harity]
+  have hinertOut : Inert env out := by
+    apply substitute_inert m.body (as.map trim) out _ hargsInert hout
+    intro t ht
+    rcases hbody t ht with ⟨j, hj, _⟩ | ⟨_, hin⟩
+    · exact Or.inl ⟨j, hj⟩
+    · exact Or.inr hin
+  have hstep := applyLoop_user_step env (before ++ call ++ after) SearchPos.start pre.length before.length
+    ⟨m, false⟩ after (as.map trim) (as.map trim) out out
+    (by simp only [SearchPos.start, List.length_append, call, List.length_cons]; omega) hf hmi hra
+    (mapE_inert env _ hargsInert) hout
+    (applyLoop_inert _ _ _ (Nat.le_refl _) (by simpa [SearchPos.start] using inert_disable _ hinertOut))
+  rw [htoks, hstep, splice_middle]
+  apply applyLoop_inert
+  · simp
+  · simp only [List.append_assoc, List.drop_left]
+    exact inert_append hinertOut hafter
+
+/-- non-vacuity: `#define F(X,Y) X + Y`, text `F ((1,2), G(3,4)) ;` -- the commas inside the nested parentheses do
+not split the arguments -/
+example : ∃ out, substitute [⟨.arg 0, true⟩, ⟨.punct "+", true⟩, ⟨.arg 1, true⟩]
+      ([[⟨.lparen, true⟩, ⟨.int "1", true⟩, ⟨.comma, true⟩, ⟨.int "2", true⟩, ⟨.rparen, true⟩],
+        [⟨.ws, true⟩, ⟨.id "G", true⟩, ⟨.lparen, true⟩, ⟨.int "3", true⟩, ⟨.comma, true⟩, ⟨.int "4", true⟩,
+          ⟨.rparen, true⟩]].map trim) = .ok out ∧
+    applyLoop ([] ++ [⟨⟨"F", true, 2, [⟨.arg 0, true⟩, ⟨.punct "+", true⟩, ⟨.arg 1, true⟩]⟩, false⟩])
+      ([] ++ ⟨.id "F", true⟩ :: ([⟨.ws, true⟩] ++ ⟨.lparen, true⟩ ::
+        (joinArgs [[⟨.lparen, true⟩, ⟨.int "1", true⟩, ⟨.comma, true⟩, ⟨.int "2", true⟩, ⟨.rparen, true⟩],
+          [⟨.ws, true⟩, ⟨.id "G", true⟩, ⟨.lparen, true⟩, ⟨.int "3", true⟩, ⟨.comma, true⟩, ⟨.int "4", true⟩,
+            ⟨.rparen, true⟩]] ++ ⟨.rparen, true⟩ :: [⟨.punct ";", true⟩])))
+      SearchPos.start = .ok ([] ++ out ++ [⟨.punct ";", true⟩]) := by
+  apply function_like_is_substitution [] [] ⟨"F", true, 2, _⟩ [] _ _ _ true true true
+  case hpre => intro e he; cases he
+  case hfn => rfl
+  case hne => simp
+  case harity => rfl
+  case hblanks => intro t ht; simp at ht; subst ht; rfl
+  case hargs =>
+    intro a ha
+    simp at ha
+    rcases ha with rfl | rfl
+    · refine ⟨by unfold IsArg; decide, ?_⟩
+      intro t ht; simp at ht; rcases ht with rfl | rfl | rfl | rfl | rfl <;> simp [InertTok]
+    · refine ⟨by unfold IsArg; decide, ?_⟩
+      intro t ht; simp at ht; rcases ht with rfl | rfl | rfl | rfl | rfl | rfl | rfl <;> simp [InertTok]
+  case hbody =>
+    intro t ht; simp at ht
+    rcases ht with rfl | rfl | rfl
+    · exact Or.inl ⟨0, rfl, by decide⟩
+    · exact Or.inr ⟨by simp, by simp [InertTok]⟩
+    · exact Or.inl ⟨1, rfl, by decide⟩
+  case hbefore => intro t ht; cases ht
+  case hafter => intro t ht; simp at ht; subst ht; simp [InertTok]
 
 /-! ## Scope of definitions -/
 
